@@ -294,6 +294,68 @@ def check_highdim(rng):
     return bad, dict(d=d, dtype=np.dtype(dt).name, highdim=1)
 
 
+def big_batch(seed, rows):
+    """One long 2-D batch: the map is a per-row function, so the result on the whole batch equals the results on its pieces
+    (chunks of 4099 rows); sampled rows (the last ones, neighbours of every power of two) are compared with the exact fold."""
+    from tempest.mcmc import apply_boundary_conditions, check_bounds
+    rng = np.random.default_rng(seed)
+    d = 3
+    X = rng.uniform(-3.0, 4.0, (rows, d))
+    hostile = np.array([0.0, -0.0, 1.0, -1.0, 2.0, 1.0 + 2 ** -52, -2 ** -53, 1e17, -1e17, 2.5, -0.5])
+    pos = rng.integers(0, rows, 4000)
+    X[pos, rng.integers(0, d, 4000)] = hostile[rng.integers(0, len(hostile), 4000)]
+    X[-1] = [-1.24, 0.5, 4.47]
+    X[-2] = [7.75, -0.2, -0.001]
+    keep = X.copy()
+    per, ref = [0], [2]
+    bad = []
+    with np.errstate(all="ignore"):
+        out = np.asarray(apply_boundary_conditions(X, per, ref))
+        cb = np.asarray(check_bounds(X, per, ref)).astype(bool)
+        step = 4099
+        pieces = np.concatenate([np.asarray(apply_boundary_conditions(X[a:a + step], per, ref)) for a in range(0, rows, step)])
+        cbp = np.concatenate([np.asarray(check_bounds(X[a:a + step], per, ref)).astype(bool) for a in range(0, rows, step)])
+    if X.tobytes() != keep.tobytes():
+        bad.append(("input-mutated", f"apply_boundary_conditions / check_bounds modified a {rows}-row input", None))
+    if out.shape != X.shape:
+        bad.append(("batch-shape", f"{rows}-row batch came back with shape {out.shape}", None))
+        return bad, dict(rows=rows, sampled=0)
+    if out.tobytes() != pieces.tobytes():
+        j = int(np.where(np.any(out != pieces, axis=1))[0][0])
+        bad.append(("batch-length-dependent", f"{rows}-row batch: row {j} folds to {out[j]} inside the batch but to {pieces[j]} in a 4099-row piece of it (input {keep[j]})",
+                    dict(rows=rows, row=j)))
+    if not np.array_equal(cb, cbp):
+        j = int(np.where(cb != cbp)[0][0])
+        bad.append(("batch-length-dependent", f"{rows}-row batch: check_bounds of row {j} is {bool(cb[j])} inside the batch, {bool(cbp[j])} in a piece of it", dict(rows=rows, row=j)))
+    expcb = (keep[:, 1] >= 0) & (keep[:, 1] <= 1)
+    if not np.array_equal(cb, expcb):
+        j = int(np.where(cb != expcb)[0][0])
+        bad.append(("check-bounds", f"{rows}-row batch: check_bounds of row {j} ({keep[j]}) is {bool(cb[j])}", dict(rows=rows, row=j)))
+    sample = set(range(max(0, rows - 40), rows)) | set(range(0, 10))
+    k = 1024
+    while k < rows:
+        sample |= {k - 1, k, k + 1} & set(range(rows))
+        k *= 2
+    sample |= set(int(v) for v in rng.integers(0, rows, 150))
+    for j in sorted(sample):
+        for col, ex, kind in ((0, fold_periodic_exact, "periodic"), (2, fold_reflect_exact, "reflective")):
+            o = float(out[j, col])
+            if not (0.0 <= o <= 1.0):
+                bad.append((f"outside-{kind}", f"{rows}-row batch: row {j}: {kind} fold of {keep[j, col]!r} = {o!r} is outside [0,1]", dict(rows=rows, row=j)))
+                continue
+            e = ex(float(keep[j, col]))
+            err = abs(Fraction(o) - e)
+            if kind == "periodic":
+                err = min(err, abs(Fraction(o) - e - 1), abs(Fraction(o) - e + 1))
+            if err > Fraction(ULP):
+                bad.append((f"value-{kind}", f"{rows}-row batch: row {j}: {kind} fold of {keep[j, col]!r} = {o!r}, exact {float(e)!r}", dict(rows=rows, row=j)))
+        if out[j, 1] != keep[j, 1] and not (np.isnan(out[j, 1]) and np.isnan(keep[j, 1])):
+            bad.append(("untouched-coordinate", f"{rows}-row batch: row {j}: ordinary coordinate changed from {keep[j, 1]!r} to {out[j, 1]!r}", dict(rows=rows, row=j)))
+        if len(bad) > 12:
+            break
+    return bad[:12], dict(rows=rows, sampled=len(sample))
+
+
 def _batch(seed, start, count, nvals):
     os.environ["VERIF_SEED"] = str(seed)
     ck = Check("C16")
@@ -356,6 +418,19 @@ def run():
                 ck.event("calls with index containers the caller had edited in place since the previous call", desc.get("reuse", 0))
                 for key, what, wit in bad:
                     ck.violation(key, what, dict(stream=["struct"] + list(idx), detail=wit))
+    # long batches (the maps are applied to whole particle histories by user code): lengths around the powers of two up to 2^20 / 2^22
+    sizes = ck.pick([65537, 262145, 300000, 1048577 + 5], [65537, 131073, 262145, 300000, 524289, 700001, 1048577 + 5, 1200000, 2097153, 4194304 + 7])
+    bt = [("tvf.checks.c16:big_batch", dict(seed=ck.subseed("big", j) % 2 ** 31, rows=r), None) for j, r in enumerate(sizes)]
+    for i, st, val in farm.run(bt, timeout=900, progress="C16-big"):
+        if st != "ok":
+            ck.inconc(f"long batch {bt[i][1]}: {st} {str(val)[:300]}")
+            continue
+        bad, desc = val
+        ck.case(dict(long_batch=desc), n=3 * desc["rows"])
+        ck.event("long 2-D batches (65537 ... 4194311 rows) compared with their own pieces")
+        ck.event("rows of long batches compared with the exact rational fold", desc["sampled"])
+        for key, what, wit in bad:
+            ck.violation(key, what, dict(long_batch=bt[i][1], detail=wit))
     if not ck.quick:
         from tvf.contracts_run import run_suite_with_contracts
         run_suite_with_contracts(ck, ['apply_boundary_conditions'])
